@@ -12,7 +12,7 @@ from adapters import C12
 CODEC = os.path.join(tlc.SPECS, "fun", "RecordCodec.tla")
 INTS = {1: 0, 2: -1, 3: 2 ** 31, 4: 10 ** 20}
 FLOATS = {1: 0.0, 2: -0.1, 3: 1e-320, 4: 1.5e300}
-TEXTS = {0: 'plain', 1: ' lead, "q" \ttail ', 2: "it's \\ back", 3: ""}
+TEXTS = {0: 'plain Plze\u0148', 1: ' lead, "q" \ttail ', 2: "it's \\ back \u6771\u4eac \u20ac", 3: ""}      # with multi-byte text
 
 
 def record_classes(f):
@@ -47,7 +47,7 @@ def record_classes(f):
     return {"json": JRec, "csv": CRec, "tsv": TRec, "csv_strlast": CLast, "tsv_strlast": TLast}
 
 
-LAST = {0: "trailing blanks  ", 1: "", 2: " \t", 3: "x"}
+LAST = {0: "trailing blanks  ", 1: "", 2: " \t", 3: "x\u20ac"}
 
 
 def rec_of(kind, cls, s):
